@@ -12,6 +12,7 @@ EXPLANATION = (
     "expressions are evaluated arithmetic-only, closing the generator aborts. The numeric bound under every "
     "schedule additionally needs the backends' at-most-once callback contract and is NOT decided."
     ' Nothing the instance remembers from an earlier call flows into the pre_dispatch amount; skipping the look-ahead wrapper on the input size requires an exact len.'
+    ' eval_expr hands the evaluated amount back unmodified; per-call containers are reset (C04.RESET).'
 )
 ASSUMPTIONS = [
     "the pools call the completion callback at most once per submitted batch",
